@@ -16,9 +16,7 @@ pub open spec fn oe_value(state: Map<String, StateValue>, key: Seq<char>) -> Opt
         match m[skey(key)] { StateValue::String(s) => Some(s@), StateValue::Boolean(b) => Some(if b { "true"@ } else { "false"@ }), _ => None }
     } else { None }
 }
-pub open spec fn truthy(v: Option<Seq<char>>) -> bool {
-    match v { None => false, Some(s) => !(lower(s) == ""@ || lower(s) == "0"@ || lower(s) == "false"@ || lower(s) == "no"@) }
-}
+pub use crate::duckscriptsdk::cspec::truthy;
 pub open spec fn exit_on_error_on(state: Map<String, StateValue>) -> bool { truthy(oe_value(state, "exit_on_error"@)) }
 pub open spec fn rest_same(inp: CallIn, out: CallOut) -> bool { out.variables == inp.variables && out.commands == inp.commands && out.env == inp.env }
 pub open spec fn only_oe_changed(s0: Map<String, StateValue>, s1: Map<String, StateValue>) -> bool { s1.remove(oe_key()) =~= s0.remove(oe_key()) }
